@@ -18,6 +18,25 @@ fn val_bytes(v: i64) -> Vec<u8> {
     vec![b'v', v as u8, b'!']
 }
 
+/// TLC integers are 32-bit: the pattern seqs -9 / 9 (the smallest / greatest any pattern uses) stand for the ends of the
+/// i64 range, every other seq for itself. The mapping preserves the order, so the model's verdict carries over.
+fn wide(s: i64) -> i64 {
+    match s {
+        -9 => i64::MIN,
+        9 => i64::MAX,
+        x => x,
+    }
+}
+fn narrow(s: i64) -> i64 {
+    if s == i64::MIN {
+        -9
+    } else if s == i64::MAX {
+        9
+    } else {
+        s
+    }
+}
+
 /// Run one arrival sequence; returns the trace line.
 pub fn run_one(b: u64, arrived: &[(i64, i64)], sync: bool, seed: u64) -> Value {
     let mut sim = Sim::new(seed ^ b, NetCfg { lat_min_ms: 1, lat_max_ms: 1, ..Default::default() });
@@ -36,6 +55,7 @@ pub fn run_one(b: u64, arrived: &[(i64, i64)], sync: bool, seed: u64) -> Value {
     let policy: Policy = Box::new(move |me, m, w| {
         if m.q.as_deref() == Some("get") && me.idx < items.len() {
             let (seq, val) = items[me.idx];
+            let seq = wide(seq);
             let vb = val_bytes(val);
             let sig = crypto::sign_mutable(&sk2, seq, &vb, salt2.as_deref());
             let extra = [
@@ -62,7 +82,7 @@ pub fn run_one(b: u64, arrived: &[(i64, i64)], sync: bool, seed: u64) -> Value {
             Box::pin(async move {
                 let r = d.get_mutable_most_recent(&pk, salt3.as_deref()).await;
                 match r {
-                    Some(it) => json!([it.seq(), it.value().get(1).cloned().unwrap_or(255)]),
+                    Some(it) => json!([narrow(it.seq()), it.value().get(1).cloned().unwrap_or(255)]),
                     None => json!([0, 0]),
                 }
             })
@@ -97,7 +117,7 @@ pub fn run_one(b: u64, arrived: &[(i64, i64)], sync: bool, seed: u64) -> Value {
         }
         if h.is_finished() {
             result = match h.join() {
-                Ok(Some(it)) => json!([it.seq(), it.value().get(1).cloned().unwrap_or(255)]),
+                Ok(Some(it)) => json!([narrow(it.seq()), it.value().get(1).cloned().unwrap_or(255)]),
                 Ok(None) => json!([0, 0]),
                 Err(_) => json!([-2, -2]),
             };
@@ -114,7 +134,7 @@ pub fn run_one(b: u64, arrived: &[(i64, i64)], sync: bool, seed: u64) -> Value {
         if r.to == caddr && !r.delivered_ns.is_empty() {
             if let Some(m) = &r.msg {
                 if m.response_kind() == "mutable" {
-                    let seq = m.arg_int("seq").unwrap_or(-9) as i64;
+                    let seq = narrow(m.arg_int("seq").unwrap_or(-8) as i64);
                     let val = m.arg_bytes("v").and_then(|x| x.get(1).cloned()).unwrap_or(255) as i64;
                     arr.push((r.delivered_ns[0], seq, val));
                 }
